@@ -23,11 +23,28 @@ GROUPS = {
         unit='prune_paths.rs', props=['C23'],
         bounds=dict(quick=['34', '1'], thorough=['42', '2']),
         space='every population (open, unknown, inactive, unusable, relay) of paths with open+unknown+inactive+unusable <= {0} and relay <= {1}, '
-              'inactive paths with pairwise distinct close times in two orders relative to the address numbering',
+              'the relay paths in each of the four statuses, inactive paths with pairwise distinct close times in two orders relative to the address numbering',
         nontrivial='populations with at least 30 non-relay paths (below that pruning must do nothing)',
         functions=['prune_non_relay_paths'],
     ),
     # second line behind the Verus unit auth_token: catches rewrites into forms Verus cannot take (exit 2 there)
+    'relay_map_bx': dict(
+        unit='relay_map.rs', props=['C43'],
+        bounds=dict(quick=['2', '0'], thorough=['3', '0']),
+        space='every sequence of at most {0} operations drawn from 22 (insert of 2 URLs x 2 configs, remove, set token, on either of two handles; extend and == for '
+              'all 4 handle pairs), once with two independent maps and once with the second handle a clone sharing the first one\'s map; each sequence runs on a '
+              'watchdog thread (1.5 s) and is compared with plain BTreeMaps after every operation',
+        nontrivial='sequences of at least two operations',
+        functions=['RelayMap::{eq, empty, contains, get, len, is_empty, insert, remove, extend, with_auth_token}', 'RelayConfig::{new, with_auth_token}'],
+    ),
+    'preferred_relay_bx': dict(
+        unit='preferred_relay.rs', props=['C28'],
+        bounds=dict(quick=['2', '0'], thorough=['3', '0']),
+        space='every history of at most {0} reports, each with one of 53 latency tables (none, one relay, two relays, one relay measured by two probe kinds, '
+              'both — latencies from 9/12/18/30 ms) arriving 1 s, 4 min or 6 min after the previous one, under a mock clock',
+        nontrivial='histories of at least two reports',
+        functions=['Client::add_report_history_and_set_preferred_relay', 'RelayLatencies::{update_relay, merge, iter, get}'],
+    ),
     # second line behind the Verus unit builder_bind
     'builder_bind_bx': dict(
         unit='builder_bind.rs', props=['C20'],
